@@ -196,8 +196,8 @@ PUTDIR = 'trashcli/put/janitor_tools/put_trash_dir.py'
 CHECKER = 'trashcli/put/janitor_tools/trash_dir_checker.py'
 VOLREADER = 'trashcli/put/trash_dir_volume_reader.py'
 F('c05-split-write', {'C05': ['R05.2']}, [(FS,
-  "        os.write(file_handle, content)\n        os.close(file_handle)",
-  "        os.write(file_handle, content[:13])\n        os.write(file_handle, content[13:])\n        os.close(file_handle)")],
+  "                os.write(file_handle, content)\n",
+  "                os.write(file_handle, content[:13])\n                os.write(file_handle, content[13:])\n")],
   'info content written by two os.write calls')
 F('c05-gate-after-mkdirs', {'C05': ['R05.3']}, [(JANITOR,
   """        can_be_used = self.trashing_checker.file_could_be_trashed_in(
@@ -225,7 +225,10 @@ F('c05-realpath-dropped', {'C05': ['R05.3'], 'C07': ['R07.4']}, [(VOLREADER,
   'volume of the trash dir computed without resolving symlinks')
 F('c05-move-then-info', {'C05': ['R05.1']}, [(JANITOR,
   """        persisting_job = self.persister.try_persist(trashinfo_data.value())
-        trashed_file = self.executor.execute(persisting_job, log_data)
+        try:
+            trashed_file = self.executor.execute(persisting_job, log_data)
+        except (IOError, OSError) as error:
+            return make_error(Left(UnableToCreateTrashInfo(error)))
         trashed = self.trash_dir.try_trash(trashee.path, trashed_file)
 """,
   """        data = trashinfo_data.value()
@@ -377,7 +380,7 @@ F('c18-volume-of-entry', {'C05': ['R05.3'], 'C07': ['R07.4']}, [('trashcli/put/f
   "        parent_realpath = ParentRealpathFs(self.fs).parent_realpath(path)\n        return self.fs.volume_of(parent_realpath)",
   "        return self.fs.volume_of(self.fs.realpath(path))")],
   'volume of the entry computed from the resolved entry instead of its parent')
-F('c18-restore-copies', {'C18': ['R18.5'], 'C15': ['R15.1']}, [('trashcli/restore/file_system.py',
+F('c18-restore-copies', {'C18': ['R18.5']}, [('trashcli/restore/file_system.py',
   "    def move(self, path, dest):\n        return fs.move(path, dest)",
   "    def move(self, path, dest):\n        import shutil\n        shutil.copy2(path, dest)\n        os.remove(path)")],
   'restore copies the payload back (dereferences links)')
@@ -737,3 +740,26 @@ F('c16-log-level-debug', {'C16': ['R16.3']}, [('trashcli/put/reporting/trash_put
 S('c16-handler-widened', ['C16', 'C17', 'C01'], [(INFOCREATOR,
   "        except (IOError, OSError, UnicodeError) as error:", "        except Exception as error:")],
   'handler widened to Exception')
+
+# ------------------------------------------------------------------ C17
+F('fix8-retry-on-everything', {'C17': ['R17.1']}, [(PERSISTER,
+  "                elif e.errno not in (errno.EEXIST, None):\n                    # only a taken name is worth another attempt\n                    raise\n", "")],
+  'every OSError retries again')
+F('fix8-no-conversion', {'C17': ['R17.2'], 'C16': ['R16.2']}, [(JANITOR,
+  "        try:\n            trashed_file = self.executor.execute(persisting_job, log_data)\n        except (IOError, OSError) as error:\n            return make_error(Left(UnableToCreateTrashInfo(error)))\n",
+  "        trashed_file = self.executor.execute(persisting_job, log_data)\n")],
+  're-raised creation error is not converted into a candidate failure')
+F('fix8-no-release', {'C17': ['R17.3']}, [(FS,
+  "        except (IOError, OSError):\n            # do not leave an empty or partial file behind\n            os.remove(path)\n            raise\n",
+  "        except (IOError, OSError):\n            raise\n")],
+  'failed write leaves the empty .trashinfo behind')
+F('c17-except-continue', {'C17': ['R17.1']}, [(PERSISTER,
+  "                if e.errno == errno.ENAMETOOLONG:\n                    name_too_long = True\n                elif e.errno not in (errno.EEXIST, None):\n                    # only a taken name is worth another attempt\n                    raise\n",
+  "                pass\n")],
+  'allow-list removed')
+F('c17-candidates-generator', {'C17': ['R17.4', 'ANALYSIS-ERROR']}, [(FILE_TRASHER,
+  "        for candidate in candidates:", "        import itertools\n        for candidate in itertools.cycle(candidates):")],
+  'candidate loop made unbounded')
+S('c17-allow-list-set', ['C17'], [(PERSISTER,
+  "                elif e.errno not in (errno.EEXIST, None):", "                elif e.errno not in {errno.EEXIST, None}:")],
+  'allow-list as a set')
